@@ -509,8 +509,8 @@ impl<T: Conv> Runner for Typed<T> {
                             return Err(format!("{} returned {r}, specification says {exp}", op["op"]));
                         }
                     }
-                    check_repr(&set)?;
-                    check_observers(cfg, &ops, &set, &st["obs"])
+                    check_observers(cfg, &ops, &set, &st["obs"])?;
+                    check_repr(&set)
                 });
                 let verdict = match outcome {
                     Ok(Ok(())) => None,
